@@ -27,7 +27,7 @@ RECURSIVE BuildFrom(_, _, _)
 BuildFrom(n, items, k) ==
   IF k > Len(items) THEN n
   ELSE LET P == IF n.layers = <<>> THEN n.input ELSE n.layers[Len(n.layers)].out
-           L == MkLayerS(items[k].kind, items[k].hp, P, k + 1)
+           L == MkLayerN(items[k].kind, items[k].hp, P, k + 1)
        IN BuildFrom([n EXCEPT !.layers = Append(MarkFlatten(n.layers, items[k].kind), L)], items, k + 1)
 Build(input, items) == BuildFrom(Empty(input), items, 1)
 
@@ -79,9 +79,9 @@ FbNet(s, loops, inskips, outskips, acc) ==
 
 \* ---- inputs ---------------------------------------------------------------------------------
 InputOf(n, seed) ==
-  IF Len(n.input) = 1 THEN T1([j \in 1..n.input[1] |-> Val(seed + 1, j)], 1)
+  IF Len(n.input) = 1 THEN T1([j \in 1..n.input[1] |-> Val(seed + 1, j) + 1], 1)
   ELSE T3([ch \in 1..n.input[1] |-> [i \in 1..n.input[2] |-> [j \in 1..n.input[3] |->
-            ((((ch * 13 + i) * 17 + j) * (seed + 3)) % 7) - 3]]], 1)
+            ((((ch * 13 + i) * 17 + j) * (seed + 3)) % 7) - 2]]], 1)
 OutShapeOf(n) == LET L == n.layers[Len(n.layers)] IN IF L.flatten THEN <<Count(L.out)>> ELSE L.out
 UpstreamOf(n, seed) ==
   LET s == OutShapeOf(n) c == Count(s)
@@ -96,6 +96,7 @@ Init ==
   /\ CASE Mode = "skip" -> \E k \in NetSel : net = SkipNets[k] /\ cfgv = [netid |-> k]
        [] Mode = "loop" -> \E k \in NetSel : net = LoopNets[k] /\ cfgv = [netid |-> k]
        [] Mode = "fb"   -> \E k \in NetSel, loops \in 1..MaxLoops, isk \in BOOLEAN, osk \in BOOLEAN, acc \in Accs :
+                              /\ acc = "multiply" => loops <= 2           \* products of more factors leave the exact range
                               /\ net = FbNet(FbShapes[k], loops, isk, osk, acc)
                               /\ cfgv = [netid |-> k, loops |-> loops, inskips |-> isk, outskips |-> osk, acc |-> acc]
 
@@ -185,7 +186,8 @@ EvalSkip(seed) ==
 EvalLoop(seed) ==
   LET X == InputOf(net, seed) IN
   [seed |-> seed, x |-> X,
-   predict |-> [a \in Accs |-> [acc |-> a, y |-> Predict([net EXCEPT !.loopacc = a], X)]]]
+   predict |-> [a \in {b \in Accs : b # "multiply" \/ \A lp \in net.loops : lp.iterations = 1} |->
+                  [acc |-> a, y |-> Predict([net EXCEPT !.loopacc = a], X)]]]
 EvalFb(seed) ==
   LET X == InputOf(net, seed) IN [seed |-> seed, x |-> X, y |-> Predict(net, X)]
 
